@@ -20,6 +20,7 @@
 #include <datatypes/msg_queue.h>
 #include <distributed/mpi.h>
 #include <gvt/termination.h>
+#include <log/stats.h>
 #include <verif/rsv.h>
 
 #include <memory.h>
@@ -298,7 +299,11 @@ void gvt_msg_drain(void)
 				atomic_fetch_sub_explicit(&idle_thr, 1U, memory_order_relaxed);
 				counted = false;
 			}
-			gvt_phase_run();
+			// a reduction completed here has already been logged by the threads which were handed its value in the
+			// main loop: log it as well, so that every thread ends up with one statistics record per reduction
+			simtime_t drained_gvt = gvt_phase_run();
+			if(unlikely(drained_gvt != 0.0))
+				stats_on_gvt(drained_gvt);
 			continue;
 		}
 		if(!counted) {
